@@ -30,7 +30,8 @@ TableOK(c) == /\ (Identity(c) => Mode(c) = "source_resolution") /\ (Identity(c) 
 
 (* ---- contract on the observed result ----
    e.o = [h, w, axis_aligned, crs_ok, is_source (same object / equal to the source), edge (<<fx, fy>> offset of pixel edges from the origin in 1/1024 px),
-          res_ratio (<<rx, ry>> output / source pixel size in 1e-6), square]
+          res_ratio (<<rx, ry>> output / source pixel size in 1e-6), square,
+          tight_floats (tight mode: the same grid whichever anchor is named besides - it is pinned to the footprint's bounding box)]
    e.pos = sequence of <<x1024, y1024>> : source boundary corners and interior sample in output pixel coordinates                                   *)
 NearFrac(v, want) == LET d == PyMod(v - want, 1024) IN d <= 2 \/ d >= 1022
 OutV(e) ==
@@ -49,6 +50,7 @@ OutV(e) ==
         ELSE "ok")
   ELSE IF \E i \in DOMAIN e.pos : ~(-tol <= e.pos[i][1] /\ e.pos[i][1] <= o.w * 1024 + tol /\ -tol <= e.pos[i][2] /\ e.pos[i][2] <= o.h * 1024 + tol) THEN "source_pixel_outside_the_output_grid"
   ELSE IF Snapped(c) /\ ~(NearFrac(o.edge[1], AnchorFrac(c)[1]) /\ NearFrac(o.edge[2], AnchorFrac(c)[2])) THEN "pixel_edges_not_aligned_as_requested"
+  ELSE IF c.opts.tight /\ ~o.tight_floats THEN "tight_grid_is_not_the_floating_grid_pinned_to_the_footprint"
   ELSE IF Mode(c) = "source_resolution" /\ ~(Abs(o.res_ratio[1] - 1000000) <= 1 /\ Abs(o.res_ratio[2] - 1000000) <= 1) THEN "resolution_is_not_the_source_resolution"
   ELSE IF Mode(c) = "fit" /\ ~o.square THEN "fitted_pixels_not_square"
   ELSE IF Mode(c) = "explicit" /\ ~o.explicit_res_ok THEN "explicit_resolution_not_honoured"
